@@ -160,6 +160,10 @@ class HwCheck:
             st2, m2, be2, s2 = solvers.solve(cs, 4 * (timeout_ms or self.timeout_ms), order=("api",))
             if st2 == "sat": return st2, m2, be + "+" + be2, secs + s2
             if st2 == "unsat": return "unknown", None, be + " vs " + be2 + " DISAGREE", secs + s2
+        if st == "unknown" and timeout_ms is None and not getattr(self, "no_long_retry", False):
+            # every back end ran out of its budget (typically a loaded machine): one long retry so that verdicts do not flip with the load
+            st2, m2, be2, s2 = solvers.solve(cs, 8 * self.timeout_ms, order=("api",))
+            if st2 in ("sat", "unsat"): return st2, m2, be2 + "(long retry)", secs + s2
         return st, m, be, secs
     def _allvars(self, extra=()):
         vs = {}
@@ -237,6 +241,7 @@ class HwCheck:
         initc = self.init_eqs() + self.base()       # assumptions (environment of cycle 0, rigid constants) hold in the initial cycle too
         while cands:
             st, m, _, _ = self._solve(initc + [z3.Not(z3.And(*cands.values()))], order=("api",))
+            if st not in ("sat", "unsat"): st, m, _, _ = self._solve(initc + [z3.Not(z3.And(*cands.values()))], timeout_ms=8 * self.timeout_ms, order=("api",))
             if st == "unsat": break
             if st != "sat": raise Unsupported("houdini(init): solver unknown")
             bad = [k for k, e in cands.items() if not z3.is_true(m.eval(e, model_completion=True))]
@@ -248,7 +253,9 @@ class HwCheck:
             except Unsupported: dropped.append((k, "comb-cycle")); del cands[k]
         while cands:
             inv = list(cands.values())
-            st, m, _, _ = self._solve(self.base() + inv + [z3.Not(z3.And(*[primed_all[k] for k in cands]))], order=("api",))
+            q = self.base() + inv + [z3.Not(z3.And(*[primed_all[k] for k in cands]))]
+            st, m, _, _ = self._solve(q, order=("api",))
+            if st not in ("sat", "unsat"): st, m, _, _ = self._solve(q, timeout_ms=8 * self.timeout_ms, order=("api",))      # a loaded machine must not flip a verdict: one long retry
             if st == "unsat": break
             if st != "sat": raise Unsupported("houdini(step): solver unknown")
             bad = [k for k in cands if not z3.is_true(m.eval(primed_all[k], model_completion=True))]
